@@ -1066,7 +1066,7 @@ class HttpPayloadParser:
 
                         if not re.fullmatch(HEXDIGITS, size_b):
                             exc = TransferEncodingError(
-                                chunk[:pos].decode("ascii", "surrogateescape")
+                                chunk[:pos].decode("ascii", "backslashreplace")
                             )
                             set_exception(self.payload, exc)
                             raise exc
